@@ -976,6 +976,9 @@ func (w *walker) step(st *pstate, in ssa.Instruction, b *ssa.BasicBlock, idx int
 		t := &Term{Op: "lookup", Args: []*Term{m, w.val(st, x.Index)}, Typ: x.Type(), Ep: st.ep(cls), Val: x}
 		if x.CommaOk {
 			t.Sym = "commaok"
+		} else {
+			// a partial operation: it panics when the dynamic type differs, on whatever path executes it
+			st.acc = append(st.acc, Access{Kind: "tassert", Addr: t, Instr: x, NEv: len(st.events), NCond: len(st.conds)})
 		}
 		st.env[x] = t
 		if _, isMap := x.X.Type().Underlying().(*types.Map); isMap {
@@ -1000,6 +1003,9 @@ func (w *walker) step(st *pstate, in ssa.Instruction, b *ssa.BasicBlock, idx int
 		t := &Term{Op: "tassert", Args: []*Term{w.val(st, x.X)}, Typ: x.AssertedType, Val: x}
 		if x.CommaOk {
 			t.Sym = "commaok"
+		} else {
+			// a partial operation: it panics when the dynamic type differs, on whatever path executes it
+			st.acc = append(st.acc, Access{Kind: "tassert", Addr: t, Instr: x, NEv: len(st.events), NCond: len(st.conds)})
 		}
 		st.env[x] = t
 	case *ssa.Range:
